@@ -83,6 +83,16 @@ mod msgq {
             self.len_bytes
         }
 
+        #[cfg(librqbit_utp_verif)]
+        pub fn verif_len_bytes(&self) -> usize {
+            self.len_bytes
+        }
+
+        #[cfg(librqbit_utp_verif)]
+        pub fn verif_capacity(&self) -> usize {
+            self.capacity
+        }
+
         pub fn window(&self) -> usize {
             self.capacity.saturating_sub(self.len_bytes)
         }
@@ -495,6 +505,54 @@ impl UserRx {
     fn enqueue_test(&self, msg: UserRxMessage) {
         let mut g = self.shared.locked.lock();
         g.queue.push_back(msg);
+    }
+}
+
+/// Verification hook: read-only snapshot of the receive-side state.
+#[cfg(librqbit_utp_verif)]
+#[derive(Debug, Clone, PartialEq, Eq)]
+pub struct VerifRxSnapshot {
+    pub filled_front: usize,
+    pub ooq_len: usize,
+    pub ooq_len_bytes: usize,
+    pub ooq_capacity: usize,
+    /// per slot: -1 = Eof, otherwise payload length (0 = empty slot)
+    pub ooq_slots: Vec<isize>,
+    pub queue_len_bytes: usize,
+    pub queue_capacity: usize,
+    pub reader_dropped: bool,
+    pub vsock_closed: bool,
+    pub dispatcher_waker_registered: bool,
+    pub reader_waker_registered: bool,
+    pub last_remaining_rx_window: usize,
+}
+
+#[cfg(librqbit_utp_verif)]
+impl UserRx {
+    pub fn verif_snapshot(&self) -> VerifRxSnapshot {
+        let g = self.shared.locked.lock();
+        VerifRxSnapshot {
+            filled_front: self.ooq.filled_front,
+            ooq_len: self.ooq.len,
+            ooq_len_bytes: self.ooq.len_bytes,
+            ooq_capacity: self.ooq.capacity,
+            ooq_slots: self
+                .ooq
+                .data
+                .iter()
+                .map(|m| match m {
+                    OoqMessage::Payload(p) => p.len() as isize,
+                    OoqMessage::Eof => -1,
+                })
+                .collect(),
+            queue_len_bytes: g.queue.verif_len_bytes(),
+            queue_capacity: g.queue.verif_capacity(),
+            reader_dropped: g.reader_dropped,
+            vsock_closed: g.vsock_closed,
+            dispatcher_waker_registered: g.dispatcher_waker.is_some(),
+            reader_waker_registered: g.reader_waker.is_some(),
+            last_remaining_rx_window: self.last_remaining_rx_window,
+        }
     }
 }
 
